@@ -191,8 +191,19 @@ pub fn values_agree(expected: &Json, got: &Json, tree: &vp_xref::XTree) -> bool 
 
 pub fn make_case(tgenes: Vec<u16>, egenes: Vec<u16>, sgenes: Vec<u8>, ty: Ty, depth: u32) -> Json {
     let mut rt = Rng::new(tgenes);
-    let tree = xgen::gen_tree(&mut rt);
-    let text = vp_xref::to_xml(&tree);
+    let mut tree = xgen::gen_tree(&mut rt);
+    let mut text = vp_xref::to_xml(&tree);
+    // a few documents carry an internal subset that defaults an attribute on one element type
+    let mut defaulted = 0usize;
+    if rt.pct(6) {
+        if let Some((d, t2, n)) = xgen::with_defaults(&tree, &mut rt) {
+            if n >= 1 {
+                text = d;
+                tree = t2;
+                defaulted = n;
+            }
+        }
+    }
     let mut re = Rng::new(egenes);
     let gen = ExprGen { error_pct: 0, ..ExprGen::default() }.with_vocabulary(&tree);
     let ast = gen.gen(&mut re, ty, depth);
@@ -230,6 +241,9 @@ pub fn make_case(tgenes: Vec<u16>, egenes: Vec<u16>, sgenes: Vec<u8>, ty: Ty, de
     };
     let mut labels = feats.clone();
     labels.push(format!("result:{}", rtype));
+    if defaulted > 0 {
+        labels.push("doc-has-defaulted-attributes".into());
+    }
     json!({
         "doc": text,
         "tree": xjson::tree_to_json(&tree),
@@ -287,6 +301,18 @@ pub fn check_case(id: &str, case: &Json, obs: &mut Obs) -> Verdict {
         }
         if skip_known(id, &z_key) {
             return Verdict::Discard("excluded:negative-zero-to-string".into());
+        }
+    }
+    // DTD-defaulted attribute nodes are made afresh on every access (id 0, order key 0): node-sets collapse them
+    // into one. Expressions that walk the attribute axis of such a document are attributed to that finding.
+    let d_key = format!("{}.dtd-defaulted-attributes-have-no-identity", id.to_lowercase());
+    if case["_labels"].as_array().map(|a| a.iter().any(|l| l == "doc-has-defaulted-attributes")).unwrap_or(false) && feats0.contains(&"axis:attribute") {
+        if !case["_witness"].is_null() {
+            return Verdict::fail(d_key, format!("{} on {:?}: XPath 1.0 says {}, the library says {}", expr, text, crate::oracle::canon::short(expected), crate::oracle::canon::short(&got)));
+        }
+        if skip_known(id, &d_key) {
+            obs.known_hits.push(d_key);
+            return Verdict::Pass;
         }
     }
     let feats: Vec<String> = case["features"].as_array().map(|a| a.iter().filter_map(|x| x.as_str().map(|s| s.to_string())).collect()).unwrap_or_default();
